@@ -371,13 +371,28 @@ def validate_runs(rep, module, cfg, trace, wd, label, dev_cfgs=None, describe=No
             for r in bad_runs:
                 if r not in still and r not in explained:
                     explained[r] = dev
-    first = {}
+    # every verdict of a run counts: a step explained by a listed deviation must not hide an unexplained one later in the same
+    # run (trace specs that judge step by step and adopt the observed state report each rejected step on its own)
+    by_run = {}
     for v in verdicts:
-        first.setdefault(v["run"], v)
+        by_run.setdefault(v["run"], []).append(v)
     for r in bad_runs:
-        what = first[r].get("what", "rejected")
         evs = [{k: e[k] for k in e if k not in strip} for e in runs[r]]
-        case = {"source": label, "failed_check": what, "at_event": first[r].get("l"), "events": evs[:400]}
-        fid = explained.get(r) or (first[r].get("v") if first[r].get("v") not in (None, "bad") else None)
-        rep.classify(fid, (describe or "trace rejected: {what}").format(what=what), case, f"{label} run {r}")
+        vs = by_run[r]
+        if r in explained:
+            picks = [(explained[r], vs[0])]
+        else:
+            picks, seen = [], set()
+            unexplained = [v for v in vs if v.get("v") in (None, "bad")]
+            if unexplained:
+                picks.append((None, unexplained[0]))
+            for v in vs:
+                fid = v.get("v")
+                if fid not in (None, "bad") and fid not in seen:
+                    seen.add(fid)
+                    picks.append((fid, v))
+        for fid, v in picks:
+            what = v.get("what", "rejected")
+            case = {"source": label, "failed_check": what, "at_event": v.get("l"), "events": evs[:400]}
+            rep.classify(fid, (describe or "trace rejected: {what}").format(what=what), case, f"{label} run {r}")
     return runs, bad_runs
